@@ -289,6 +289,12 @@ const (
 	RevisionTypeResolved
 )
 
+// partially reports if the revision is partially applied and was not
+// marked as resolved by the user, i.e. its execution should be resumed.
+func (r *Revision) partially() bool {
+	return r.Applied != r.Total && !r.Type.Has(RevisionTypeResolved)
+}
+
 // Has returns if the given flag is set.
 func (r RevisionType) Has(f RevisionType) bool {
 	return r&f != 0
@@ -717,7 +723,7 @@ func (e *Executor) Pending(ctx context.Context) ([]File, error) {
 			return nil, err
 		}
 	// In case we applied a checkpoint, but it was only partially applied.
-	case revs[len(revs)-1].Applied != revs[len(revs)-1].Total && len(all) > 0:
+	case revs[len(revs)-1].partially() && len(all) > 0:
 		if idx, found := slices.BinarySearchFunc(all, revs[len(revs)-1], func(f File, r *Revision) int {
 			return strings.Compare(f.Version(), r.Version)
 		}); found {
@@ -735,7 +741,7 @@ func (e *Executor) Pending(ctx context.Context) ([]File, error) {
 	case len(migrations) > 0:
 		var (
 			last      = revs[len(revs)-1]
-			partially = last.Applied != last.Total
+			partially = last.partially()
 			fn        = func(f File) bool { return f.Version() <= last.Version }
 		)
 		if partially {
@@ -756,7 +762,7 @@ func (e *Executor) Pending(ctx context.Context) ([]File, error) {
 			return migrations, nil
 		}
 		// If this file was not partially applied, take the next one.
-		if last.Applied == last.Total {
+		if !partially {
 			idx++
 		}
 		pending = migrations[idx:]
